@@ -70,8 +70,7 @@ func parseF32(s string) float32 {
 	return math.Float32frombits(uint32(b))
 }
 
-func float64Oracle[T fixed.Dx](op, arg string) string {
-	mult := f64.Multiplier[T]()
+func float64Oracle[T fixed.Dx](mult int64, op, arg string) string {
 	switch op {
 	case "fromf64":
 		x := parseF64(arg)
@@ -89,9 +88,7 @@ func float64Oracle[T fixed.Dx](op, arg string) string {
 	return "FAIL bad-op"
 }
 
-func float128Oracle[T fixed.Dx](op, arg string) string {
-	var t T
-	mult := t.Multiplier()
+func float128Oracle[T fixed.Dx](mult int64, op, arg string) string {
 	switch op {
 	case "fromf64":
 		x := parseF64(arg)
@@ -164,18 +161,43 @@ func (floatArea) Gen(r *hx.Rng, n int, _ string, emit func(string)) {
 		switch r.Intn(6) {
 		case 0, 1:
 			x := genFloat(r, bits, c.mult, false)
+			if r.Bool() { // the decision points of the conversions (midpoints ± ulps, subnormals, -0, range edge)
+				x = representable(r, genFloatM(r, bits, c.places, c.mult), bits, c.mult)
+			}
 			emit(ty + " " + name + " fromf64 " + strconv.FormatUint(math.Float64bits(x), 16))
 		case 2:
 			x := float32(genFloat(r, bits, c.mult, true))
+			if r.Bool() {
+				x = float32(representable(r, genFloatM(r, bits, c.places, c.mult), bits, c.mult))
+				if x != x || math.IsInf(float64(x), 0) {
+					x = 1
+				}
+			}
 			// the conversion to float32 may round up to the limit; stay inside
 			for float64(x)*float64(c.mult) >= math.Ldexp(1, bits-2) || float64(x)*float64(c.mult) <= -math.Ldexp(1, bits-2) {
 				x /= 2
 			}
 			emit(ty + " " + name + " fromf32 " + strconv.FormatUint(uint64(math.Float32bits(x)), 16))
 		case 3, 4:
-			emit(ty + " " + name + " asf64 " + genRaw(r, bits, bi(c.mult)).String())
+			emit(ty + " " + name + " asf64 " + genRawFloat(r, bits, c.mult, false).String())
 		default:
-			emit(ty + " " + name + " asf32 " + genRaw(r, bits, bi(c.mult)).String())
+			emit(ty + " " + name + " asf32 " + genRawFloat(r, bits, c.mult, true).String())
 		}
 	}
+}
+
+// representable moves x to a finite value whose product with the multiplier is well inside the raw range (the oracle
+// judges only results that the fixed-point type can represent).
+func representable(r *hx.Rng, x float64, bits int, mult int64) float64 {
+	if math.IsNaN(x) || math.IsInf(x, 0) {
+		x = 1
+	}
+	limit := math.Ldexp(1, bits-2) / float64(mult)
+	for i := 0; i < 6 && math.Abs(x) >= limit; i++ {
+		x = math.Nextafter(x, 0)
+	}
+	for math.Abs(x) >= limit {
+		x /= float64(r.Range(2, 1024))
+	}
+	return x
 }
